@@ -506,17 +506,20 @@ def _run_kani_unit(here, repo, name, tier):
         r["undecided_reason"] = "; ".join(reasons)
         return r
 
-    # first harness alone (it compiles the crate and its dependencies), the others up to MAX_PROCS at a time
-    results = []
-    first = run_harness(meta, hs[0], tier)
-    results.append(first)
-    compile_failed = first["verdict"] is None and not first["timeout"] and not first["checks"]
-    if not compile_failed and len(hs) > 1:
-        with cf.ThreadPoolExecutor(MAX_PROCS) as ex:
-            results += list(ex.map(lambda h: run_harness(meta, h, tier), hs[1:]))
-    elif compile_failed:
-        for h in hs[1:]:
-            results.append(None)
+    # step 0: compile once (crate + path dependencies); a compile error is a tool limit, never an alarm
+    cc = ["cargo", "kani", "--only-codegen"] + _z_flags(cfg.get("kani_flags", []))
+    c0 = _run(cc, meta["dir"], cfg.get("compile_timeout", 900), None)
+    ctext = c0["stdout"] + "\n" + c0["stderr"]
+    with open(os.path.join(meta["dir"], "logs", "_compile.txt"), "w") as f:
+        f.write("$ %s\n# rc=%s timeout=%s wall=%.1fs\n%s" % (" ".join(cc), c0["rc"], c0["timeout"], c0["wall_s"], ctext))
+    r["compile_s"] = round(c0["wall_s"], 1)
+    if c0["timeout"] or c0["rc"] != 0:
+        r["status"] = "undecided"
+        r["undecided_reason"] = "generated crate %s does not compile under cargo kani (rc=%s timeout=%s): %s" % (meta["dir"], c0["rc"], c0["timeout"], _errors_of(ctext))
+        r["cmd"] = "cd %s && CARGO_NET_OFFLINE=true %s" % (meta["dir"], " ".join(cc))
+        return r
+    with cf.ThreadPoolExecutor(MAX_PROCS) as ex:
+        results = list(ex.map(lambda h: run_harness(meta, h, tier), hs))
 
     cmds = []
     for h, res in zip(hs, results):
@@ -619,6 +622,19 @@ def _run_kani_unit(here, repo, name, tier):
         r["status"] = "undecided"
         r["undecided_reason"] = "no obligations were generated"
     return r
+
+
+def _z_flags(flags):
+    """the `-Z feature` pairs of a flag list (needed for compilation as well as for verification)"""
+    out = []
+    k = 0
+    while k < len(flags):
+        if flags[k] == "-Z" and k + 1 < len(flags):
+            out += flags[k:k + 2]
+            k += 2
+        else:
+            k += 1
+    return out
 
 
 def _errors_of(text):
